@@ -5,6 +5,7 @@
      c13_adf dec              stdin: "hex MN MX HEXBYTES" / "dp HEXBYTES" lines -> decoder-level results
      c13_adf walk FILE FUEL   ADF_Database_Open(FILE,"READ_ONLY","NATIVE") + walk
      c13_adf probe FILE NAME  open + ADF_Get_Node_ID(root, NAME)   (the section-6 #12 witness path)
+     c13_adf walk2 A B FUEL   open A, one query, close; then the walk of B (must print what "walk B" prints)
 
    Numbers that may exceed 62 bits are printed in lower-case hex, byte strings as hex ("-" when empty). */
 #include <stdio.h>
@@ -124,7 +125,9 @@ static void visit(double id, int depth)
         }
         if (want) {
             unsigned char *buf = (unsigned char *)calloc((size_t)(cnt * ms), 1);
-            ADF_Read_All_Data(id, NULL, (char *)buf, &err);
+            /* like cgio_read_all_data_type, the only in-tree client of ADF_Read_All_Data, the walk passes the type
+               it was told by ADF_Get_Data_Type (with NULL the library does not compare types at all) */
+            ADF_Read_All_Data(id, type, (char *)buf, &err);
             if (err != NO_ERROR) printf("X err %d\n", err);
             else printf("X ok %lld %x\n", cnt * ms, cksum(buf, (size_t)(cnt * ms)));
             fflush(stdout);
@@ -195,6 +198,21 @@ int main(int argc, char **argv)
         double root; int err;
         fuel = atol(argv[3]);
         ADF_Database_Open(argv[2], "READ_ONLY", "NATIVE", &root, &err);
+        if (err != NO_ERROR) { printf("open err %d\nEND\n", err); return 0; }
+        printf("open ok "); pid(root); printf("\n"); fflush(stdout);
+        visit(root, 0);
+        printf("END\n"); fflush(stdout);
+        ADF_Database_Close(root, &err);
+        return 0;
+    }
+    if (strcmp(argv[1], "walk2") == 0 && argc >= 5) {
+        /* history independence: read the first block of FILE_A (open, one query, close), then walk FILE_B;
+           the output must be that of "walk FILE_B" */
+        double root; int err; char name[ADF_NAME_LENGTH + 1];
+        ADF_Database_Open(argv[2], "READ_ONLY", "NATIVE", &root, &err);
+        if (err == NO_ERROR) { ADF_Get_Name(root, name, &err); ADF_Database_Close(root, &err); }
+        fuel = atol(argv[4]);
+        ADF_Database_Open(argv[3], "READ_ONLY", "NATIVE", &root, &err);
         if (err != NO_ERROR) { printf("open err %d\nEND\n", err); return 0; }
         printf("open ok "); pid(root); printf("\n"); fflush(stdout);
         visit(root, 0);
